@@ -4,6 +4,7 @@ import vlib
 from props.common import *
 
 ID = 'C12'
+GRAD_MODES = True
 PROPS_MODULE = 'Props.C12'
 THEOREMS = ['C12_dims_correct', 'C12_example', 'C12_skip_mask', 'C12_prefix']
 VO = ['theories/Props/C12.vo', 'theories/Run/RunGen.vo', 'theories/Run/RunDtcwt.vo']
